@@ -203,6 +203,32 @@ theorem specDissectIC_of_noUpper {p : Pat} {line : Bytes} (hl : NoUpper line) (h
         _ = toks := List.map_id _
   rw [specDissectIC, h1, lower_of_noUpper hl]
 
+/-- ignore-case finds the leading literal and the end of the match NO LATER than case-sensitive -/
+theorem specDissect_ci_mono_le {p : Pat} {line : Bytes} {r : List Nat} (h : specDissect p line = some r) :
+    ∃ s e caps s' e' caps', r = s :: e :: caps ∧ specDissectIC p line = some (s' :: e' :: caps') ∧
+      s' ≤ s ∧ e' ≤ e ∧ caps'.length = caps.length := by
+  have hlen := specDissect_length h
+  simp only [specDissect] at h
+  split at h
+  · cases h
+  · rename_i s hs
+    split at h
+    · cases h
+    · rename_i caps e hrec
+      have hs0 : firstIndex p.pre (line.drop 0) = some s := by simpa using hs
+      obtain ⟨s', hs', hle⟩ := firstIndex_lower_le (pos' := 0) hs0 (Nat.le_refl 0)
+      obtain ⟨c', e', h', hee⟩ := specToks_ci_mono (pos' := s' + (lower p.pre).length) hrec
+        (by simp [lower_length]; omega)
+      have hic : specDissectIC p line = some (s' :: e' :: c') := by
+        simp only [specDissectIC, specDissect, Pat.lowerLits]
+        simp only [List.drop_zero] at hs'
+        rw [hs']; simp only []; rw [h']
+      refine ⟨s, e, caps, s', e', c', (Option.some.inj h).symm, hic, by omega, hee, ?_⟩
+      have h1 := specToks_caps_length hrec
+      have h2 := specToks_caps_length h'
+      rw [capCount_lowerLit] at h2
+      omega
+
 theorem find_same_dissect {s s' : Instance} {str : Bytes} {r : Option View}
     (h : findSubmatchIndex s str = .ok (r, s')) : s'.d = s.d := by
   unfold findSubmatchIndex at h
